@@ -16,3 +16,6 @@ func b2i(b bool) int {
 
 // vtraceRx reports a packet the receive loop is about to process.
 func vtraceRx(src any, b []byte) {}
+
+// vtraceTx reports a packet that is about to be handed to the transport.
+func vtraceTx(src any, b []byte) {}
